@@ -112,7 +112,7 @@ def abstract_tie(ctx, ops, impl):
 def run(ctx, ops=None):
     vlib.regen(ctx, C18_syms.NAMESPACE, C18_syms.SYMS)
     check_xyz_constants(ctx)
-    obligations, discharged = vlib.standard_proof_steps(ctx, extra_props=["GilVerif.Props.C18Float", "GilVerif.Props.C18Range"])
+    obligations, discharged = vlib.standard_proof_steps(ctx, extra_props=["GilVerif.Props.C18Float", "GilVerif.Props.C18Range", "GilVerif.Props.C18Ycbcr"])
     binary, err = vlib.compile_harness(ctx, "harness/C18/main.cpp")
     samples, distinct, pixels = [], 0, 0
     if binary is None:
